@@ -107,6 +107,7 @@ type Summary struct {
 	QueryScripts  []string
 	Wall          time.Duration
 	PathsPerLabel map[string]int
+	ForkSites     map[string]int
 }
 
 // Load loads the repository packages (with overlay) and builds SSA.
@@ -162,7 +163,7 @@ func Load(cfg Config) (*Engine, error) {
 func (e *Engine) resetSummary() {
 	e.Sum = Summary{ByStatus: map[string]int{}, Violations: map[string][]Violation{}, ViolCount: map[string]int{},
 		AssertsSeen: map[string]int{}, Reached: map[string]int{}, Known: map[string]int{}, Funcs: map[string]bool{},
-		Intrinsics: map[string]bool{}, Problems: map[string]int{}, PathsPerLabel: map[string]int{}}
+		Intrinsics: map[string]bool{}, Problems: map[string]int{}, PathsPerLabel: map[string]int{}, ForkSites: map[string]int{}}
 }
 
 func (e *Engine) isHarnessPkg(p *ssa.Package) bool { return e.harnessPkgs[p] }
@@ -352,7 +353,7 @@ func (e *Engine) newRun(prefix []Decision, s *smt.Solver) *Run {
 	r := &Run{E: e, B: smt.NewBuilder(), S: s, prefix: prefix, facts: map[*smt.Term]bool{},
 		shadow: map[*Agg]*Agg{}, mshadow: map[*MapObj]*MapObj{}, occ: map[string]int{}, maxSteps: e.Cfg.MaxSteps,
 		idc: e.initIDs, nthreads: 1, stubState: map[string]interface{}{}}
-	r.res = &PathResult{Reached: map[string]int{}, AssertsSeen: map[string]int{}, Known: map[string]bool{}, Funcs: map[string]bool{}, Intrinsics: map[string]bool{}}
+	r.res = &PathResult{Reached: map[string]int{}, AssertsSeen: map[string]int{}, Known: map[string]bool{}, Funcs: map[string]bool{}, Intrinsics: map[string]bool{}, ForkSites: map[string]int{}}
 	return r
 }
 
@@ -490,6 +491,9 @@ func (e *Engine) merge(res *PathResult) {
 	}
 	for k := range res.Funcs {
 		s.Funcs[k] = true
+	}
+	for k, n := range res.ForkSites {
+		s.ForkSites[k] += n
 	}
 	for k := range res.Intrinsics {
 		s.Intrinsics[k] = true
